@@ -142,6 +142,11 @@ def make_classes(rec, spec):
     class WithIO(HasIO, Base):
         ioClass = Com
 
+        def initModule(self):
+            io = self.io      # the automatically created (maybe shared) communicator is an attachment like any other
+            rec('see', self.name, io.name, bool(io.earlyInitDone and io.initModuleDone))
+            super().initModule()
+
     class Pin(Pinata):
         def earlyInit(self):
             rec('early', self.name)
@@ -420,6 +425,12 @@ def check(ctx, spec):
     if polls_after and not any(m.get('slow') for m in spec['mods']):
         ctx.finding('poll-after-first-shutdownModule', spec, repr(polls_after[:3]))
         return
+    # ... and joined: nothing of a module is read or polled any more once its shutdownModule has been called
+    for n, name in shut:
+        late = [e for k, e in enumerate(events) if k > n and e[0] in ('read', 'read-done', 'doPoll') and e[1] == name]
+        if late and not any(m.get('slow') for m in spec['mods']):
+            ctx.finding('poll-activity-after-own-shutdownModule', spec, f'{name}: {late[:3]!r} after its shutdownModule')
+            return
     for name in lifecycle:
         c = sum(1 for _, x in shut if x == name)
         if c != 1:
